@@ -191,3 +191,20 @@ Example C20_ex_unresolved :
     (ROk (Some (XNew (CSynth n_X (SMNamed n_m)) [5] None None false)),
      [Synthesize n_X (SMNamed n_m); Instantiate (TSynth n_X (SMNamed n_m))]).
 Proof. vm_compute. repeat split; try reflexivity. intros H; discriminate H. Qed.
+
+(* an exception class that taskiq ships itself, with a signature (module, class name, args, text = default) like
+   _UnpickleableExceptionWrapper (CtorTable: 3 arguments -> .args get the default appended, 4 -> stored as given,
+   anything else -> TypeError -> fallback): a payload that names it and whose ARGUMENTS name the loaded class H (or the
+   function f) instantiates that one exception class and nothing else - the arguments are data *)
+Definition n_W := [87].
+Definition ex_env_w : env := ex_env ++ [([116], Obj 20 KModule [(n_W, Obj 21 (KExc (CtorTable [(3%nat, [5000]); (4%nat, [])])) [])])].
+Example C20_ex_own_class_with_arguments_naming_a_class :
+  load EDirect ex_env_w (leaf n_W (Some [116]) [1000; 1001; 1002; 1003]) =
+    (ROk (Some (XNew (CEnv 21) [1000; 1001; 1002; 1003] None None false)),
+     [Instantiate (TEnv (Obj 21 (KExc (CtorTable [(3%nat, [5000]); (4%nat, [])])) []))]) /\
+  fst (load EJson ex_env_w (leaf n_W (Some [116]) [1000; 1001; 1002])) =
+    ROk (Some (XNew (CEnv 21) [1000; 1001; 1002; 5000] None None false)) /\
+  fst (load EJson ex_env_w (leaf n_W (Some [116]) [1000; 1001])) = ROk (Some (XNew CFallback [] None None false)) /\
+  forallb effect_ok (snd (load EValidate ex_env_w
+     (RDict (FOk n_E) (FOk (Some n_m)) (FOk []) (FOk false) (leaf n_W (Some [116]) [1000; 1001; 1002; 1003]) RNone))) = true.
+Proof. vm_compute. repeat split. Qed.
